@@ -296,6 +296,15 @@ func addTrashBlockMarkers(ssaFunc *ssa.Function, count int, obfRand *mathrand.Ra
 		}
 		setBlockParent(trashBlockDispatch, ssaFunc)
 		targetBlock.Succs[succsIdx] = trashBlockDispatch
+		// The successor is now entered from the dispatch block. Its Preds must say so,
+		// as phi assignments are emitted at the end of the predecessor block; a stale
+		// entry would keep them in targetBlock even after it gets split.
+		for i, pred := range succs.Preds {
+			if pred == targetBlock {
+				succs.Preds[i] = trashBlockDispatch
+				break
+			}
+		}
 
 		trashBlock.Preds = []*ssa.BasicBlock{trashBlockDispatch, trashBlock}
 		trashBlock.Succs = []*ssa.BasicBlock{trashBlock}
